@@ -1879,6 +1879,8 @@ func (s *ServiceNode) IsSameService(other *ServiceNode) bool {
 		s.ServiceEnableTagOverride != other.ServiceEnableTagOverride ||
 		!reflect.DeepEqual(s.ServiceProxy, other.ServiceProxy) ||
 		!reflect.DeepEqual(s.ServiceConnect, other.ServiceConnect) ||
+		!reflect.DeepEqual(s.ServiceLocality, other.ServiceLocality) ||
+		s.ServiceSocketPath != other.ServiceSocketPath ||
 		!s.IsSame(&other.EnterpriseMeta) {
 		return false
 	}
